@@ -150,6 +150,14 @@ def _run_case(case):
             for dd in dets[1:]:
                 c2 += dd
             combos.append(("+=", c2))
+            # sum() over already combined detectors starts with 0 + (a combined detector): it is that detector's content, nothing more
+            try:
+                whole = fold(0, len(dets))
+                combos.append(("0 + combined", 0 + whole))
+                if len(dets) >= 3:
+                    combos.append(("sum of combined parts", sum([dets[0] + dets[1], fold(2, len(dets))]) if len(dets) > 3 or isinstance(dets[2], Detector) else sum([dets[0] + dets[1]]) + dets[2]))
+            except TypeError:
+                pass
         own_before = [[id(a) for a in dd] if isinstance(dd, Detector) else None for dd in dets]
         for how, c in combos:
             want = flat if how != "0+" else list(dets[0])
